@@ -44,8 +44,50 @@ def validate(ctx, events, tag):
     return ok, hwm, r
 
 
+GC_CFG = """SPECIFICATION Spec
+CONSTANTS
+  Dev_OpenBeforeLock = %s
+  Dev_NoOffsetRefresh = %s
+  Dev_GCNoDeleteLock = %s
+  Readers = {%s}
+INVARIANTS %s
+CHECK_DEADLOCK FALSE
+"""
+
+
+def design_stage(ctx):
+    """DomainGC.tla: the repaired design of reader / delete / garbage collection on one data file
+    holds; each of the three repaired defects alone (named deviation) reproduces its counterexample;
+    the residual window of the repaired code is shown explicitly."""
+    thorough = ctx.tier == "thorough"
+    readers = '"r1", "r2"' if not thorough else '"r1", "r2", "r3"'
+    inv = "TypeOK ReadsOwnDomain PointersAddressOwnCells NoStaleHandle"
+    b = lambda x: "TRUE" if x else "FALSE"
+    runs = []
+    st = tr = 0
+    m = ctx.tlc(C.AREA, "DomainGC", "gc_masked.cfg", files={"gc_masked.cfg": GC_CFG % (b(0), b(0), b(0), readers, inv)},
+                workers=4, tag="gc_masked", timeout=900)
+    if m.violated:
+        raise vlib.Inconclusive("DomainGC.tla (repaired design) violates %s" % m.violated)
+    st += m.distinct
+    tr += m.generated
+    runs.append({"config": "repaired", "distinct": m.distinct, "generated": m.generated, "violated": None})
+    for name, devs, want in (("open-before-lock", (1, 0, 0), "NoStaleHandle"), ("no-offset-refresh", (0, 1, 0), "ReadsOwnDomain"),
+                             ("gc-without-delete-lock", (0, 0, 1), "PointersAddressOwnCells")):
+        r = ctx.tlc(C.AREA, "DomainGC", "gc_dev.cfg", files={"gc_dev.cfg": GC_CFG % (b(devs[0]), b(devs[1]), b(devs[2]), '"r1"', inv)},
+                    workers=1, tag="gc_" + name, timeout=300, expect_violation=True)
+        if not r.violated:
+            raise vlib.Inconclusive("DomainGC.tla: deviation %s no longer reproduces a counterexample (vacuous model)" % name)
+        runs.append({"config": name, "violated": r.violated, "expected_kind": want})
+    r = ctx.tlc(C.AREA, "DomainGC", "gc_res.cfg", files={"gc_res.cfg": GC_CFG % (b(0), b(0), b(0), '"r1"', "ReadsOwnDomainEvenIfCut")},
+                workers=1, tag="gc_residual", timeout=300, expect_violation=True)
+    runs.append({"config": "repaired, residual window (reader positioned before a cut + compaction)", "violated": r.violated})
+    return st, tr, runs
+
+
 def run(ctx):
     thorough = ctx.tier == "thorough"
+    dstates, dtrans, design = design_stage(ctx)
     plan = [(1, 6), (2, 8), (4, 10), (16, 12)] if not thorough else [(1, 40), (2, 60), (4, 80), (8, 80), (16, 120)]
     total_rounds = total_events = tstates = ttrans = 0
     samples = []
@@ -137,7 +179,8 @@ def run(ctx):
                 "CesiumLinTrace.tla (some serial order of the successful operations); every round's schedule is distinct",
         "samples": samples,
         "events_validated": total_events,
-        "states": tstates, "transitions": ttrans,
+        "states": tstates + dstates, "transitions": ttrans + dtrans,
+        "design_runs": design,
         "traces_validated_against_impl": total_rounds,
         "exhaustive": False,
     }
